@@ -900,7 +900,7 @@ fn mparse_case(cx: &mut Ctx, msg: &[u8], kind: &str) {
     cx.out.begin(&case);
     let mv = msg.to_vec();
     let new = catch(move || {
-        let mut p = match MessageParser::new(&mv) { Ok(p) => p, Err(_) => return ("Short".to_string(), None, 0usize) };
+        let mut p = match MessageParser::new(&mv) { Ok(p) => p, Err(_) => return ("Short".to_string(), None, 0usize, 0usize) };
         let mut items: Vec<String> = vec![]; let mut complete = true;
         while let Some(it) = p.next() {
             match it {
@@ -916,9 +916,9 @@ fn mparse_case(cx: &mut Ctx, msg: &[u8], kind: &str) {
         // after an error the iterator is fused
         let fused = p.next().is_none();
         let n = items.len();
-        (format!("Ok {} {} {} {}", if items.is_empty() { "-".to_string() } else { items.join(",") }, p.offset(), if complete { "complete" } else { "error" }, if fused { "fused" } else { "notfused" }), Some(complete), n)
+        (format!("Ok {} {} {} {}", if items.is_empty() { "-".to_string() } else { items.join(",") }, p.offset(), if complete { "complete" } else { "error" }, if fused { "fused" } else { "notfused" }), Some(complete), n, p.offset())
     });
-    let (obs, ncomplete, nitems) = match new { Ok(x) => x, Err(_) => ("Panic".to_string(), None, 0) };
+    let (obs, ncomplete, nitems, stop) = match new { Ok(x) => x, Err(_) => ("Panic".to_string(), None, 0, 0) };
     cx.out.case(&case, &obs, true, kind);
     cx.verdict(obs != "Panic", "panic_new", &case, "MessageParser panicked");
     let old: Result<(usize, bool), bool> = flat(catch(|| {
@@ -936,10 +936,18 @@ fn mparse_case(cx: &mut Ctx, msg: &[u8], kind: &str) {
         (Err(true), _) => cx.verdict(false, "panic_old", &case, "old Message iteration panicked"),
         (Err(false), None) => cx.verdict(true, "", "", ""),
         (Ok((on, oc)), Some(nc)) => {
-            cx.verdict(*on == nitems, "message_item_count_mismatch", &case, &format!("old read {} items, new read {} items ({})", on, nitems, obs));
-            if *oc != nc { cx.verdict(false, if nc { "accept_reject_mismatch_message_new_accepts" } else { "accept_reject_mismatch_message_old_accepts" }, &case,
-                &format!("header counts {:?}: old complete={} new complete={} :: {}", &msg[4..12], oc, nc, obs)); }
-            else { cx.verdict(true, "", "", ""); }
+            // where the new iterator stopped with an error an item starts whose owner name may be in
+            // one of the two known classes (old reader accepts the pointer, new reader refuses it):
+            // then the old codec legitimately reads further
+            let class = if !nc && 12 + stop <= msg.len() { classify(msg, 12 + stop) } else { "none" };
+            if *on > nitems && !nc && class != "none" {
+                cx.mismatch("message", true, false, class, &case, &format!("old read {} items, new stopped after {} at offset {} (owner name class {}) :: {}", on, nitems, 12 + stop, class, obs));
+            } else {
+                cx.verdict(*on == nitems, "message_item_count_mismatch", &case, &format!("old read {} items, new read {} items ({})", on, nitems, obs));
+                if *oc != nc { cx.verdict(false, if nc { "accept_reject_mismatch_message_new_accepts" } else { "accept_reject_mismatch_message_old_accepts" }, &case,
+                    &format!("header counts {:?}: old complete={} new complete={} :: {}", &msg[4..12], oc, nc, obs)); }
+                else { cx.verdict(true, "", "", ""); }
+            }
         }
         (a, b) => cx.verdict(false, "accept_reject_mismatch_message_header", &case, &format!("old {:?} new {:?}", a.is_ok(), b)),
     }
@@ -986,6 +994,10 @@ fn mparse_cases(cx: &mut Ctx, rng: &mut Rng, scale: usize) {
         mparse_case(cx, &b, "mparse:corpus");
     }
     mparse_case(cx, &[0u8; 11], "mparse:corpus");
+    // an owner name of a known pointer class inside a whole message: the old codec reads the record, the new one stops
+    { let mut b = header(0, 1, 0, 0); b.extend_from_slice(&[3, 1, 0x7a, 0, 0xc0, 0x0d, 0xff, 0, 0, 1, 0, 0, 0, 1, 0, 0]); mparse_case(cx, &b, "mparse:corpus"); }
+    { let mut b = header(0, 1, 0, 0); b.extend_from_slice(&[0xc0, 0x0b, 0xff, 0, 0, 1, 0, 0, 0, 1, 0, 0]); mparse_case(cx, &b, "mparse:corpus"); }
+    mparse_case(cx, &unhex("1234818000020001000100020178017800ff000001017800ff00000113d5d5bd0001480201610000630001a5113b4a00065618cc989b31026162c02300630001c421644a0004b8c82d3b"), "mparse:corpus");
     for _ in 0..160 * scale {
         let (m, bounds) = counted_message(rng);
         mparse_case(cx, &m, "mparse:valid");
@@ -1390,9 +1402,9 @@ fn main() {
     // EDNS
     edns_cases(&mut cx, &mut rng, scale);
     // 65536 and more: finding new_builder_rdata_overflow_panic (pending/C19-sizeprefixed-overflow-error.diff);
-    // enabled with C19_LONG_RDATA=1 until the repair is in /repo, afterwards unconditionally
+    // (repaired in /repo by 074d5d8; these cases must stay silent)
     for n in [65534usize, 65535] { long_rdata_case(&mut cx, n); }
-    if std::env::var("C19_LONG_RDATA").is_ok() { for n in [65536usize, 70000] { long_rdata_case(&mut cx, n); } }
+    for n in [65536usize, 70000] { long_rdata_case(&mut cx, n); }
     // compressor alone (T2 against the model)
     bim_case(&mut cx, 0, &[l(&["b", "c"]), l(&["a", "c"]), l(&["x", "a", "b", "c"])], "bim:regress");
     bim_case(&mut cx, 0, &[l(&["a", "ab"]), l(&["\x01a", "ab"])], "bim:regress");
